@@ -45,10 +45,13 @@ def _setarch():
     return []
 
 
-def run_loop(build, text, cwd, prefix, timeout=60):
-    cmd = prefix + [build["aldor"]] + vlib.ALDOR_BASE_ARGS + ["-Gloop"]
+def run_loop(build, text, cwd, prefix, timeout=40, args=()):
+    cmd = prefix + [build["aldor"]] + vlib.ALDOR_BASE_ARGS + list(args) + ["-Gloop"]
     rc, out, err, to = vlib.run(cmd, cwd=cwd, timeout=timeout, stdin=text.encode())
-    return {"rc": rc, "out": out.decode(errors="replace"), "err": err.decode(errors="replace"), "timeout": to}
+    out = out.decode(errors="replace")
+    # a confirmation dialogue ("Redefine? (y/n): ") at the end of the input never ends: no need to wait longer
+    return {"rc": rc, "out": out[-200000:], "err": err.decode(errors="replace")[-20000:], "timeout": to,
+            "dialogue": to and "(y/n)" in out[-4000:]}
 
 
 def judge(h, res):
@@ -70,6 +73,52 @@ def judge(h, res):
     if res["rc"] != 0:
         return ("loop-fault", "exit status %s" % res["rc"], toks, exp)
     return None
+
+
+def cont_harness(b):
+    return vlib.harness_build("repl_cont", [os.path.join(vlib.VERIF, "harness", "repl_cont.c")], b,
+                              extra=tuple(["-Wl,--start-group"] + b["libs"] + ["-Wl,--end-group"]))
+
+
+def lines_phase(chk, b, name, recs, workers=8):
+    """recs: [(id, text, ends)].  TLC (ReplLines.tla) must cut every text exactly at the ends of its forms (this is what
+    makes `one form = one step' true for the layouts used); the transcription of scanIsContinued is compared with the
+    real function line by line (drift only)."""
+    if not recs:
+        return
+    h = cont_harness(b)
+    rc, out, err, to = vlib.run([h], stdin=replhist.harness_input([t for (_, t, _) in recs]).encode(), timeout=600)
+    real = out.decode(errors="replace").split("\n")
+    if rc != 0 or to or len(real) < len(recs):
+        raise vlib.MachineryError("repl_cont harness failed: rc=%s %s" % (rc, err.decode(errors="replace")[-500:]))
+    out_recs = []
+    for i, (rid, text, ends) in enumerate(recs):
+        n = text.count("\n")
+        rl = [c == "1" for c in real[i]] if len(real[i]) == n and set(real[i]) <= set("01") else None
+        out_recs.append(replhist.lines_record(rid, text, ends, rl))
+        if rl is None:
+            chk.extra.setdefault("scan_drift", []).append({"record": rid, "what": "harness gave no result: %r" % real[i][:40]})
+    d = vlib.scratch("c13lines")
+    path = os.path.join(d, "lines.ndjson")
+    vlib.write_ndjson(path, out_recs)
+    r = vlib.tlc("ReplLines", "ReplLines", workers=workers, env={"LINES": path}, timeout=900)
+    chk.add_tlc("ReplLines[%s]" % name, r)
+    if r.violated:
+        raise vlib.MachineryError("ReplLines.tla: a rendered session text is not cut at the ends of its forms (%s)\n%s"
+                                  % (r.violated, r.trace_text[:1500]))
+    r2 = vlib.tlc("ReplLines", "ReplLinesCode", workers=workers, env={"LINES": path}, timeout=900)
+    chk.add_tlc("ReplLinesCode[%s]" % name, r2)
+    chk.extra["scan_lines_compared"] = chk.extra.get("scan_lines_compared", 0) + sum(len(x["lines"]) for x in out_recs if "real" in x)
+    if r2.violated:
+        import re
+        m = re.search(r"rid = (\d+)", r2.trace_text)
+        m2 = None
+        for m2 in re.finditer(r"ln = (\d+)", r2.trace_text):
+            pass
+        rec = out_recs[int(m.group(1)) - 1] if m else None
+        chk.extra.setdefault("scan_drift", []).append(
+            {"record": rec["id"] if rec else None, "line": int(m2.group(1)) if m2 else None,
+             "what": "scanIsContinued and its transcription in ReplLines.tla disagree on this line"})
 
 
 def hist_sig(h):
@@ -98,7 +147,7 @@ def select_programs(chk, seed, n, maxforms, name):
     return out, stats
 
 
-def run_family(chk, b, wd, prefix, name, sel, rng, maxbad, ncat, force, verbose_every, layouts, per_route):
+def run_family(chk, b, wd, prefix, name, sel, rng, maxbad, ncat, force, verbose_every, layouts, per_route, all_lines=False):
     progs = []
     batch_exp = {}
     for p, e in sel:
@@ -157,11 +206,12 @@ def run_family(chk, b, wd, prefix, name, sel, rng, maxbad, ncat, force, verbose_
         if kind == "batch":
             rc, out, err, to = vlib.aldor(b, ["-Ginterp", "p.as"], dd, timeout=120)
             return {"rc": rc, "out": out.decode(errors="replace"), "err": err.decode(errors="replace"), "phase": "interp", "timeout": to}
-        text, steps = replhist.render_history(p, h["hist"], verbose=verbose, layout=layout)
+        text, steps, ends = replhist.render_history(p, h["hist"], verbose=verbose, layout=layout)
         res = run_loop(b, text, dd, prefix)
+        res["ends"] = ends
         v = judge(h, res)
-        if v is not None and v[0] in ("loop-hang",):
-            res = run_loop(b, text, dd, prefix, timeout=240)      # a loaded machine is not a hang
+        if v is not None and v[0] == "loop-hang" and not res["dialogue"]:
+            res = run_loop(b, text, dd, prefix, timeout=200)      # a loaded machine is not a hang
             v = judge(h, res)
         res["text"] = text
         res["verdict"] = v
@@ -200,12 +250,42 @@ def run_family(chk, b, wd, prefix, name, sel, rng, maxbad, ncat, force, verbose_
                        "observed_projection": toks, "specified_projection": exp, "expected_out": render.expected_text(h["out"])},
                       key={"kind": kindv, "shapes": shapes, "route": "loop", "verbose": bool(verbose), "layout": layout})
     chk.traces += len(jobs)
+    lrecs = [("%s/%s/%s/%s" % (name, job[1]["id"], hist_sig(job[2]), job[5]), res["text"], res["ends"])
+             for job, res in zip(jobs, results) if job[0] == "loop" and (job[5] != "line" or all_lines)]
+    lines_phase(chk, b, name, lrecs)
     for p in progs[:2]:
         hh = [h for h in hs if h["id"] == p["id"] and sum(1 for it in h["hist"] if it["k"] != "ok") == min(2, maxbad)]
         if hh and len(chk.samples) < 4:
             h = hh[len(hh) // 2]
             chk.sample({"history": hist_sig(h), "input": replhist.render_history(p, h["hist"])[0][-1500:],
                         "expected_out": render.expected_text(h["out"])[:300]})
+
+
+ECHO_SESSION = """#include "axllib"
+SI ==> SingleInteger;
+import from SI, String;
+print << "@@READY" << newline;
+x: SI := 3@SI;
+print << "@@ " << x << newline;
+print << "@@END" << newline;
+"""
+
+
+def fixed_histories(chk, b, wd, prefix, per_route):
+    """Hand-written sessions kept as regressions of recorded findings."""
+    # the loop's default value echo writes to `stdout'; with a library that has no such name (axllib) the echo of the
+    # first value does not type check.  Required: a diagnostic at most, and the session goes on.
+    res = run_loop(b, ECHO_SESSION, wd, prefix)
+    toks, flags = replhist.loop_tokens(res["out"])
+    st = per_route.setdefault("fixed", {"runs": 0, "bad": 0})
+    st["runs"] += 1
+    chk.case(("fixed", "echo-without-stdout"))
+    chk.traces += 1
+    if flags["fault"] or res["timeout"] or not flags["end"] or (res["rc"] or 0) < 0:
+        st["bad"] += 1
+        chk.violation("loop-fault in the fixed session echo-without-stdout: the loop faulted after the diagnostic of the value echo",
+                      {"input": ECHO_SESSION, "stdout": res["out"][-3000:], "rc": res["rc"]},
+                      key={"kind": "loop-fault", "fixed": "echo-without-stdout", "route": "loop"})
 
 
 def run(chk, tier):
@@ -215,15 +295,23 @@ def run(chk, tier):
     rng = random.Random(chk.seed)
     per_route = {}
     seed = chk.seed % 1000003
+    # 1. where the loop cuts its input: every sequence of <= 3 forms over the layout shapes (exhaustive)
+    shapes = replhist.shape_sequences(3 if tier == "quick" else 4)
+    lines_phase(chk, b, "shapes", shapes, workers=vlib.NCPU)
+    chk.extra["layout_shape_sequences"] = len(shapes)
+    for rid, _, _ in shapes:
+        chk.case(("shapes", rid))
+    # 2. histories
+    mixed = ["line", "braces", "line", "piled", "line", "paren", "line"]
     if tier == "quick":
         plan = [  # name, programs, maxforms, maxbad, ncat, forced catalogue kinds, verbose every n-th, layouts
-            ("one", 8, 6, 1, None, (), 5, ["line"]),
-            ("two", 2, 5, 2, 3, ("syntax", "shadow"), 7, ["line"]),
+            ("one", 8, 6, 1, None, (), 5, mixed),
+            ("two", 2, 5, 2, 3, ("syntax", "shadow"), 7, mixed),
         ]
     else:
         plan = [
-            ("one", 120, 8, 1, None, (), 4, ["line"]),
-            ("two", 24, 6, 2, 5, ("syntax", "shadow"), 5, ["line"]),
+            ("one", 110, 8, 1, None, (), 4, ["line", "braces", "piled", "paren"]),
+            ("two", 20, 6, 2, 5, ("syntax", "shadow"), 5, ["line", "braces", "line", "piled", "line", "paren"]),
         ]
     stats = {}
     for i, (name, n, maxforms, maxbad, ncat, force, vev, layouts) in enumerate(plan):
@@ -233,17 +321,24 @@ def run(chk, tier):
         if len(sel) < n:
             raise vlib.MachineryError("only %d of %d programs selected" % (len(sel), n))
         run_family(chk, b, wd, prefix, name, sel, rng, maxbad, ncat, force, vev, layouts, per_route)
+    # 3. fixed sessions
+    fixed_histories(chk, b, wd, prefix, per_route)
     chk.extra["candidate_programs_by_status"] = stats
     chk.extra["routes"] = per_route
     chk.extra["aslr_off"] = bool(prefix)
+    chk.extra.setdefault("scan_drift", [])
     chk.rule = ("programs of gen/progen.py with few top-level forms (definitions, assignments, loops, output statements), each evaluated "
                 "by TLC; for each, TLC (Repl.tla) enumerates every interleaving of its forms in order with <= maxbad erroneous forms "
-                "(full catalogue with maxbad = 1, a drawn part of it with maxbad = 2) at every position; a case is (program, history, "
-                "route); non-trivial = the history has a rejected form or the session prints something")
+                "(full catalogue with maxbad = 1, a drawn part of it with maxbad = 2) at every position; each history is rendered in one "
+                "of the layouts line / braces / piled / paren and in the loop's verbose or quiet mode; a case is (program, history, route); "
+                "non-trivial = the history has a rejected form or the session prints something.  Separately every sequence of <= 3 (4) forms "
+                "over 11 layout shapes is cut into steps by ReplLines.tla (exhaustive) and by the real scanIsContinued")
     chk.exhaustive = False
     chk.assumptions += ["every history starts in a fresh compiler process; the preamble (#include, macros, imports, one constant) is not "
                         "part of the history", "the loop is run with address-space randomisation off so that a fault depends on the input only",
-                        "only order-independent, normally terminating programs are replayed"]
+                        "only order-independent, normally terminating programs are replayed",
+                        "a piled definition is typed with a closing comment line in column 1 (the loop reads the first unindented line "
+                        "together with the definition)"]
 
 
 SELFTEST_NOTES = """
